@@ -111,13 +111,14 @@ def custom_ops_engine():
         from lsst.daf.relation import iteration
 
         from vf.checks.c04 import custom_classes
+        from vf.checks.c05 import reverse_operation
 
         TotalSort, EvenFilter, Alternate, AtLeast, Reverse, DropRepeats, Rotate = custom_classes()
 
         class CustomOpsEngine(iteration.Engine):
             def apply_custom_unary_operation(self, operation, target):
                 rows = list(self.execute(target))
-                if isinstance(operation, Reverse):
+                if isinstance(operation, (Reverse, reverse_operation())):
                     return iteration.RowSequence(rows[::-1])
                 if isinstance(operation, Rotate):
                     return iteration.RowSequence(rows[-1:] + rows[:-1])
@@ -141,8 +142,12 @@ def custom_operation_sequences(case, prog, leaves, rels, expected, env, gcols, s
     TotalSort, EvenFilter, Alternate, AtLeast, Reverse, DropRepeats, Rotate = custom_classes()
     t = gcols[0]
     ref = ColumnExpression.reference(t)
+    from vf.checks.c05 import reverse_operation
+
     steps = {
         "reverse": (lambda r: Reverse().apply(r), lambda d: d[::-1]),
+        # the same reordering written without any flag (the base-class defaults): still not idempotent
+        "flip": (lambda r: reverse_operation()().apply(r), lambda d: d[::-1]),
         "rotate": (lambda r: Rotate().apply(r), lambda d: d[-1:] + d[:-1]),
         "alternate": (lambda r: Alternate().apply(r), lambda d: d[::2]),
         f"even[{t}]": (lambda r: EvenFilter(t).apply(r), lambda d: [x for x in d if x[t] % 2 == 0]),
@@ -159,8 +164,10 @@ def custom_operation_sequences(case, prog, leaves, rels, expected, env, gcols, s
     dg = hashlib.sha256(codec.digest(case).encode()).hexdigest()
     for k in range(2):
         seq = [names[int(dg[10 + 6 * k + 2 * i : 12 + 6 * k + 2 * i], 16) % len(names)] for i in range(3)]
-        if not any(n in ("reverse", "rotate", "alternate") or n.startswith("even") for n in seq):
-            seq[1] = ("reverse", "rotate", "alternate")[int(dg[8:10], 16) % 3]
+        if not any(n in ("reverse", "flip", "rotate", "alternate") or n.startswith("even") for n in seq):
+            seq[1] = ("reverse", "rotate", "alternate", "flip")[int(dg[8:10], 16) % 4]
+        if int(dg[6:8], 16) % 5 == 0:
+            seq[2] = seq[1]  # the same operation twice in a row
         rel, exp = rels[id(prog)], expected
         what = f"{fmt(prog, leaves)} then " + " then ".join(seq)
         try:
